@@ -1,7 +1,10 @@
 """C18 - timeframe bucketing does not depend on the process time zone."""
 from __future__ import annotations
 
+import json
 import os
+import subprocess
+import sys
 import time
 
 from hypothesis import strategies as st
@@ -18,7 +21,9 @@ RULE = (
     "timestamps lie on/around the zone's transition days incl. non-existent and repeated local times, append chunks); "
     "oracle = in-process differential: collapse under TZ=<zone> (tzset) and again under TZ=UTC must give equal candles, "
     "both equal to the zone-free integer reference resampler; non-trivial = zone offset not a multiple of the timeframe "
-    "or the stream lies on a transition day of the zone"
+    "or the stream lies on a transition day of the zone; fresh-process shards: a batch of such cases is collapsed by a "
+    "child interpreter STARTED under TZ=<zone> (library imported under that zone, never switched) and compared with the "
+    "same batch collapsed under UTC and with the reference, which reaches zone-dependent state computed at import time"
 )
 FLOORS = {"nontrivial_zone": (0.6, None)}
 ASSUMPTIONS = ["POSIX TZ rule strings are interpreted by the C library without a tz database"]
@@ -108,7 +113,101 @@ def _under(tz, fn):
         time.tzset()
 
 
+def _child_main():
+    """python -m hxv.props.c18 --child : read a batch from stdin, collapse every item under the zone this
+    interpreter was started with, print one outcome line per item as it goes. CPU- and memory-limited, so a
+    runaway item ends the child; the parent attributes the death to the item that was being collapsed."""
+    import gc
+    import resource
+
+    resource.setrlimit(resource.RLIMIT_CPU, (CHILD_CPU, CHILD_CPU + 5))
+    resource.setrlimit(resource.RLIMIT_AS, (CHILD_MEM, CHILD_MEM))
+    items = json.load(sys.stdin)
+    print("READY " + json.dumps({"tz": os.environ.get("TZ"), "tzname": list(time.tzname)}), flush=True)
+    for it in items:
+        try:
+            o = ["ok", _collapse(it)]
+        except MemoryError:
+            raise
+        except Exception as exc:
+            v = raises(exc, "zone")
+            o = ["fails", v.kind, v.site]
+        print(json.dumps(o), flush=True)
+        gc.collect()
+
+
+CHILD_CPU = 120
+CHILD_MEM = 2 << 30
+DIED = ["fails", "hangs-or-runs-away", "child-died"]
+
+
+def _fresh(tz, items):
+    """outcomes of `items` in child interpreters started under TZ=tz; (None, why) when they could not be judged"""
+    import hxv
+    from hxv import HarnessError
+
+    env = dict(os.environ, TZ=tz, HXV_KEEP_TZ="1", HEXITAL_SRC=hxv.SRC, PYTHONPATH=hxv.VERIF + os.pathsep + hxv.SRC, PYTHONHASHSEED="0")
+    out, todo = [], list(items)
+    while todo:
+        try:
+            p = subprocess.run([sys.executable, "-m", "hxv.props.c18", "--child"], input=json.dumps(todo), capture_output=True, text=True, env=env, timeout=1800)
+        except subprocess.TimeoutExpired:
+            return None, "wall-clock"
+        lines = p.stdout.splitlines()
+        if not lines or not lines[0].startswith("READY "):
+            raise HarnessError(f"C18 child did not start rc={p.returncode}: {p.stderr[-400:]}")
+        if json.loads(lines[0][6:])["tz"] != tz:
+            raise HarnessError(f"C18 child ran under {lines[0]} instead of TZ={tz}")
+        got = [json.loads(x) for x in lines[1:]]
+        out += got
+        if len(got) == len(todo) and p.returncode == 0:
+            break
+        # the child died while collapsing item len(got): out of memory or out of CPU on a stream of a few dozen candles
+        if not ("MemoryError" in p.stderr or p.returncode in (-24, -9, 128 + 24, 128 + 9)):
+            raise HarnessError(f"C18 child failed rc={p.returncode}: {p.stderr[-400:]}")
+        out.append(DIED)
+        todo = todo[len(got) + 1 :]
+    return out, None
+
+
+def _norm(x):
+    return json.loads(json.dumps(x))
+
+
+def run_fresh(case) -> Result:
+    tz, items = case["tz"], case["items"]
+    off = next((o for z, o, _ in ZONES if z == tz), 0)
+    labels = ["fresh_process", "zone:" + tz.split(",")[0]]
+    out, why = _fresh(tz, items)
+    if out is None:
+        return Result([], False, labels + ["inconclusive_child_timeout"])
+    viol, nontrivial = [], False
+    for k, (it, o) in enumerate(zip(items, out)):
+        tfs = tf_seconds(it["tf"])
+        if off % tfs != 0 or it.get("on_transition"):
+            nontrivial = True
+        try:
+            utc = ["ok", _norm(_under("UTC", lambda: _collapse(it)))]
+        except Exception as exc:
+            v = raises(exc, "zone")
+            utc = ["fails", v.kind, v.site]
+        if o == utc:
+            continue
+        if o[0] == "ok" and utc[0] == "ok":
+            j = next((i for i, (a, b) in enumerate(zip(o[1], utc[1])) if a != b), min(len(o[1]), len(utc[1])))
+            d = f"item {k} TZ={tz} tf={it['tf']} candle {j}: {o[1][j] if j < len(o[1]) else None} vs UTC {utc[1][j] if j < len(utc[1]) else None} (len {len(o[1])} vs {len(utc[1])})"
+        else:
+            d = f"item {k} TZ={tz} tf={it['tf']}: {str(o)[:160]} vs UTC {str(utc)[:160]}"
+        viol.append(Violation("differs-between-zones", "fresh-process", d, "zone"))
+        break
+    if nontrivial:
+        labels.append("nontrivial_zone")
+    return Result(viol, nontrivial, labels, {"max_batch": len(items)})
+
+
 def run_case(case) -> Result:
+    if "items" in case:
+        return run_fresh(case)
     tz, tfs = case["tz"], tf_seconds(case["tf"])
     off = next((o for z, o, _ in ZONES if z == tz), 0)
     nontrivial = (off % tfs != 0) or bool(case.get("on_transition") and tz != "UTC" and any(z == tz and t for z, _, t in ZONES))
@@ -152,8 +251,37 @@ def _grid():
                     yield {"tz": tz, "tf": tf, "stream": rows, "preload": 5, "chunks": [1, 1, 7, 2], "fill": day != gs.BASE_DAY, "on_transition": day in trans, "mode": "manager"}
 
 
+def _fresh_grid():
+    """one child per zone: the whole enum grid of that zone, collapsed by an interpreter born in the zone"""
+    by = {}
+    for c in _grid():
+        by.setdefault(c["tz"], []).append(c)
+    for tz, items in by.items():
+        if tz != "UTC":
+            yield {"tz": tz, "items": items}
+
+
+@st.composite
+def fresh_cases(draw, k=12):
+    zi = draw(st.integers(1, len(ZONES) - 1))
+    items = []
+    for _ in range(draw(st.integers(k // 2, k))):
+        c = draw(cases(max_n=24))
+        tz, off, trans = ZONES[zi]
+        c["tz"] = tz
+        c["on_transition"] = bool(c["on_transition"] and trans and any(abs(c["stream"][0][0] - t) < 3 * DAY for t in trans))
+        items.append(c)
+    return {"tz": ZONES[zi][0], "items": items}
+
+
 def shards(tier):
     n = 600 if tier == "quick" else 40000
     return [Shard("enum-zone-x-timeframe", cases=_grid, subject="zone", exhaustive=True)] + [Shard(f"gen-{i}", lambda: cases(), n, subject="zone") for i in range(14)] + [
         Shard(f"gen-long-{i}", lambda: cases(max_n=90), n // 3, subject="zone", cost=2) for i in range(2)
+    ] + [Shard("enum-fresh-process", cases=_fresh_grid, subject="zone", exhaustive=True, cost=2)] + [
+        Shard(f"fresh-process-{i}", lambda: fresh_cases(), 6 if tier == "quick" else 150, subject="zone", cost=2) for i in range(4)
     ]
+
+
+if __name__ == "__main__" and "--child" in sys.argv:
+    _child_main()
